@@ -300,7 +300,12 @@ SFieldsBad(p) ==
                                                                 !.leaves[1].names = <<n>>]
   \/ p = [SFieldsProg(FALSE, "func", <<"A">>, <<"v">>) EXCEPT !.key = "S/fieldsbad/ptr-from-value", !.leaves[2].ins = <<"*T1">>]
   \/ p = [SFieldsProg(TRUE, "func", <<"A">>, <<"v">>) EXCEPT !.key = "S/fieldsbad/unused-name", !.leaves[1].names = <<"A", "c">>]
-FamilyS(p) == FamilySStruct(p) \/ FamilySFields(p) \/ SFieldsBad(p)
+\* the deprecated struct-literal form S1{}: every field, whatever its tag
+SStructLit(ptr, complete) ==
+  LET leaves == <<StructLitL("SL", "S1")>> \o (IF complete THEN SProviders ELSE SubSeq(SProviders, 1, 3) \o <<SProviders[5]>>)
+  IN Prog("S/structlit/" \o (IF ptr THEN "ptr" ELSE "val") \o (IF complete THEN "/complete" ELSE "/no-provider-for-tagged-field"), "S", SAtoms("pre"), leaves, <<>>,
+          <<Inj("Inject", <<>>, IF ptr THEN "*S1" ELSE "S1", FALSE, FALSE, [i \in DOMAIN leaves |-> ItL(i)])>>)
+FamilyS(p) == FamilySStruct(p) \/ FamilySFields(p) \/ SFieldsBad(p) \/ \E ptr \in BOOLEAN, complete \in BOOLEAN : p = SStructLit(ptr, complete)
 
 (* ======================================================================== *)
 (* Family Q (signatures).  Result lists of length 0..maxlen whose first     *)
